@@ -27,8 +27,9 @@ type usePanic struct {
 }
 
 type exerciser struct {
-	panics []usePanic
-	ops    int
+	panics  []usePanic
+	ops     int
+	hazards int
 	seen   map[any]bool
 	// baseline: frames that panic on valid Go-built schemas as well (C04's business)
 	skipFrames map[string]bool
@@ -72,9 +73,186 @@ func (e *exerciser) guard(op, node, class string, f func()) {
 	}
 }
 
+// shorthandHazard: t denotes a cycle of single-property objects.  On such a schema (also when built
+// in Go) every non-mapping input recurses through the single-property shorthand until the stack is
+// exhausted - a fatal error no supervisor can turn into a verdict cheaply.  It is a totality defect of
+// valid schemas (C04's business), so those inputs are left out here and the fact is reported as a note.
+func shorthandHazard(t schema.Type) (hazard bool) {
+	_ = sup.Guard(func() {
+		seen := map[*schema.ObjectSchema]bool{}
+		cur := t
+		for i := 0; i < 64; i++ {
+			var obj *schema.ObjectSchema
+			switch x := cur.(type) {
+			case *schema.PropertySchema:
+				cur = x.Type()
+				continue
+			case *schema.ScopeSchema:
+				obj = x.RootObject()
+			case *schema.RefSchema:
+				if !x.ObjectReady() {
+					return
+				}
+				obj, _ = x.GetObject().(*schema.ObjectSchema)
+			case *schema.ObjectSchema:
+				obj = x
+			default:
+				return
+			}
+			if obj == nil {
+				return
+			}
+			if seen[obj] {
+				hazard = true
+				return
+			}
+			seen[obj] = true
+			if len(obj.Properties()) != 1 {
+				return
+			}
+			for _, p := range obj.Properties() {
+				if p == nil {
+					return
+				}
+				cur = p.Type()
+			}
+		}
+		hazard = true
+	})
+	return
+}
+
+// denotedObject resolves an object-like type to the object it denotes (nil when it denotes none or
+// cannot be resolved).
+func denotedObject(t schema.Type) *schema.ObjectSchema {
+	switch x := t.(type) {
+	case *schema.PropertySchema:
+		return denotedObject(x.Type())
+	case *schema.ScopeSchema:
+		return x.RootObject()
+	case *schema.RefSchema:
+		if !x.ObjectReady() {
+			return nil
+		}
+		o, _ := x.GetObject().(*schema.ObjectSchema)
+		return o
+	case *schema.ObjectSchema:
+		return x
+	}
+	return nil
+}
+
+// defaultCycleHazard: from t a cycle object -> defaulted object-typed property -> object is reachable.
+// Such a schema (also when built in Go) expands the default of the absent property for ever: fatal
+// stack exhaustion on every mapping that leaves the property out.  Left out of the exercise, noted.
+func defaultCycleHazard(t schema.Type) (hazard bool) {
+	_ = sup.Guard(func() {
+		state := map[*schema.ObjectSchema]int{} // 1 on stack, 2 done
+		var dfs func(o *schema.ObjectSchema) bool
+		dfs = func(o *schema.ObjectSchema) bool {
+			if o == nil {
+				return false
+			}
+			switch state[o] {
+			case 1:
+				return true
+			case 2:
+				return false
+			}
+			state[o] = 1
+			for _, p := range o.Properties() {
+				if p == nil || p.Default() == nil {
+					continue
+				}
+				if dfs(denotedObject(p.Type())) {
+					return true
+				}
+			}
+			state[o] = 2
+			return false
+		}
+		hazard = dfs(denotedObject(t))
+	})
+	return
+}
+
+// reachableHazard: some object reachable from t (through properties, items, keys, values, members,
+// linked references, scope tables) is a shorthand or default-expansion cycle; inputs nested anywhere
+// below t could then exhaust the stack.
+func reachableHazard(t schema.Type) (hazard bool) {
+	_ = sup.Guard(func() {
+		seen := map[any]bool{}
+		var visit func(x schema.Type, depth int) bool
+		visit = func(x schema.Type, depth int) bool {
+			if x == nil || depth > 40 {
+				return false
+			}
+			rv := reflect.ValueOf(x)
+			if rv.Kind() == reflect.Pointer {
+				if rv.IsNil() || seen[x] {
+					return false
+				}
+				seen[x] = true
+			}
+			switch y := x.(type) {
+			case *schema.PropertySchema:
+				return visit(y.Type(), depth+1)
+			case *schema.ScopeSchema:
+				for _, o := range y.Objects() {
+					if visit(o, depth+1) {
+						return true
+					}
+				}
+			case *schema.ObjectSchema:
+				if shorthandHazard(y) || defaultCycleHazard(y) {
+					return true
+				}
+				for _, p := range y.Properties() {
+					if p != nil && visit(p.Type(), depth+1) {
+						return true
+					}
+				}
+			case *schema.RefSchema:
+				if y.ObjectReady() {
+					if o, ok := y.GetObject().(*schema.ObjectSchema); ok {
+						return visit(o, depth+1)
+					}
+				}
+			case *schema.ListSchema:
+				return visit(y.Items(), depth+1)
+			case *schema.MapSchema[schema.Type, schema.Type]:
+				return visit(y.Keys(), depth+1) || visit(y.Values(), depth+1)
+			case *schema.OneOfSchema[string]:
+				for _, m := range y.Types() {
+					if visit(m, depth+1) {
+						return true
+					}
+				}
+			case *schema.OneOfSchema[int64]:
+				for _, m := range y.Types() {
+					if visit(m, depth+1) {
+						return true
+					}
+				}
+			}
+			return false
+		}
+		hazard = visit(t, 0)
+	})
+	return
+}
+
+func isMapValue(v any) bool {
+	return v != nil && reflect.ValueOf(v).Kind() == reflect.Map
+}
+
 // ops runs the four data operations (and the round trip of whatever Unserialize returned) on t.
 func (e *exerciser) opsOn(node string, t schema.Type, extra []namedVal) {
 	vals := valueClasses()
+	if reachableHazard(t) {
+		e.hazards++
+		return
+	}
 	for _, x := range extra {
 		vals = append(vals, struct {
 			name string
